@@ -383,3 +383,213 @@ Section Strategies.
         apply (groupBy_has r lk w1 _ Hne1 Hw1 Hlk). exists t. split; [assumption | congruence].
   Qed.
 End Strategies.
+
+Lemma keys_has k m : NoDup (map fst m) -> (In k (map fst m) <-> gm_has k m = true).
+Proof.
+  intros Hnd. unfold gm_has. split.
+  - intros H. apply in_map_iff in H as ([k' s] & <- & H). cbn [fst]. rewrite (in_gm_get _ _ _ Hnd H). reflexivity.
+  - destruct (gm_get k m) as [s|] eqn:E; [intros _ | discriminate].
+    apply gm_get_in in E. apply (in_map fst) in E. exact E.
+Qed.
+
+Lemma joinOneSide_spec base other w wo key okey output :
+  width_is base w -> base <> [] -> NoDup base -> width_is other wo -> other <> [] ->
+  inrange key w -> inrange output w -> inrange okey wo ->
+  exists rows, joinOneSide base (groupBy other okey) key output = JOk rows /\ NoDup rows /\
+    forall x, In x rows <-> exists t u, In t base /\ In u other /\ pick key t = pick okey u /\ x = pick output t.
+Proof.
+  intros Hw Hne Hnd Hwo Hneo Hk Ho Hok.
+  assert (Hhas : forall t, In t base ->
+            (gm_has (pv_values key t) (groupBy other okey) = true <-> exists u, In u other /\ pick okey u = pick key t)).
+  { intros t Ht. rewrite pv_values_pick by (rewrite (Hw t Ht); exact Hk).
+    apply (groupBy_has other okey wo _ Hneo Hwo Hok). }
+  unfold joinOneSide. destruct base as [|any base'] eqn:Eb; [congruence|]. rewrite <- Eb in *.
+  assert (Hany : length any = w) by (apply Hw; rewrite Eb; left; reflexivity).
+  rewrite Hany. destruct (isIdentity output w) eqn:Eid.
+  - apply proj_eqb_eq in Eid. eexists. split; [reflexivity|]. split; [apply NoDup_filter, Hnd|].
+    intros x. rewrite filter_In. split.
+    + intros [Hx Hh]. apply (Hhas x Hx) in Hh as (u & Hu & Hku). exists x, u. repeat split; try assumption; [congruence|].
+      rewrite Eid, <- (Hw x Hx). symmetry. apply pick_seq_id.
+    + intros (t & u & Ht & Hu & Hku & ->). rewrite Eid, <- (Hw t Ht), pick_seq_id. split; [assumption|].
+      apply (Hhas t Ht). exists u. split; [assumption | congruence].
+  - eexists. split; [reflexivity|]. split; [apply rs_of_list_nodup|].
+    intros x. rewrite rs_of_list_in, in_flat_map. split.
+    + intros (t & Ht & Hx). destruct (gm_has _ _) eqn:Hh in Hx; [|destruct Hx].
+      destruct Hx as [<-|[]]. apply (Hhas t Ht) in Hh as (u & Hu & Hku).
+      exists t, u. repeat split; try assumption; [congruence|].
+      apply pv_values_pick. rewrite (Hw t Ht). exact Ho.
+    + intros (t & u & Ht & Hu & Hku & ->). exists t. split; [assumption|].
+      assert (Hh : gm_has (pv_values key t) (groupBy other okey) = true) by (apply (Hhas t Ht); exists u; split; [assumption | congruence]).
+      rewrite Hh. left. apply pv_values_pick. rewrite (Hw t Ht). exact Ho.
+Qed.
+
+Lemma find_last_nat_spec x l : forall i0 acc,
+  match find_last_nat x l i0 acc with
+  | Some j => acc = Some j \/ (i0 <= j /\ nth_error l (j - i0) = Some x)
+  | None => acc = None /\ ~ In x l
+  end.
+Proof.
+  induction l as [|y l IH]; intros i0 acc; simpl.
+  - destruct acc; [left; reflexivity | split; [reflexivity | intros []]].
+  - specialize (IH (S i0) (if x =? y then Some i0 else acc)).
+    destruct (find_last_nat x l (S i0) (if x =? y then Some i0 else acc)) as [j|].
+    + destruct IH as [IH|[Hle Hn]].
+      * destruct (x =? y) eqn:E; [|left; exact IH].
+        apply Nat.eqb_eq in E. subst y. injection IH as <-. right. split; [lia|]. rewrite Nat.sub_diag. reflexivity.
+      * right. split; [lia|]. replace (j - i0) with (S (j - S i0)) by lia. exact Hn.
+    + destruct IH as [IH Hn]. destruct (x =? y) eqn:E; [discriminate|]. split; [exact IH|].
+      intros [->|H]; [rewrite Nat.eqb_refl in E; discriminate | contradiction].
+Qed.
+
+Lemma remap_spec key value : (forall i, In i value -> In i key) ->
+  exists output, mapM_opt (fun index => find_last_nat index key 0 None) value = Some output
+    /\ inrange output (length key) /\ map (fun i => nth i key 0) output = value.
+Proof.
+  induction value as [|x value IH]; intros H.
+  - exists []. repeat split. intros i [].
+  - destruct IH as (out & E & Hr & Hm); [intros i Hi; apply H; right; assumption|].
+    pose proof (find_last_nat_spec x key 0 None) as F.
+    cbn [mapM_opt]. destruct (find_last_nat x key 0 None) as [j|].
+    + destruct F as [F|[_ Hn]]; [discriminate|]. rewrite Nat.sub_0_r in Hn. rewrite E.
+      exists (j :: out). split; [reflexivity|]. split.
+      * intros i [<-|Hi]; [apply nth_error_Some; congruence | apply Hr, Hi].
+      * cbn [map]. rewrite Hm. f_equal. apply nth_error_nth. exact Hn.
+    + destruct F as [_ F]. exfalso. apply F, H. left; reflexivity.
+Qed.
+
+Section Strategies2.
+  Variables (r r2 : list row) (w1 w2 : nat) (lk rk lo ro : vproj).
+  Hypothesis Hw1 : width_is r w1.
+  Hypothesis Hw2 : width_is r2 w2.
+  Hypothesis Hne1 : r <> [].
+  Hypothesis Hne2 : r2 <> [].
+  Hypothesis Hlk : inrange lk w1.
+  Hypothesis Hrk : inrange rk w2.
+
+  Lemma common_keys k :
+    In k (filter (fun k => gm_has k (groupBy r2 rk)) (map fst (groupBy r lk)))
+    <-> exists t u, matching r r2 lk rk t u /\ k = pick lk t.
+  Proof.
+    pose proof (groupBy_inv r lk w1 Hw1 Hlk) as (Hnd1 & _ & _).
+    rewrite filter_In, (keys_has _ _ Hnd1), (groupBy_has r lk w1 _ Hne1 Hw1 Hlk), (groupBy_has r2 rk w2 _ Hne2 Hw2 Hrk).
+    split.
+    - intros [(t & Ht & Hkt) (u & Hu & Hku)]. exists t, u. split; [split; [assumption | split; [assumption | congruence]] | congruence].
+    - intros (t & u & (Ht & Hu & Hk) & ->). split; [exists t | exists u]; split; congruence || assumption.
+  Qed.
+
+  (* JoinCommonOnly returns the chosen output columns of every key present on both sides *)
+  Lemma commonOnly_spec :
+    (lo = [] -> forall i, In i ro -> In i rk) -> (lo <> [] -> forall i, In i lo -> In i lk) ->
+    exists rows, joinCommonOnly r r2 lk rk lo ro = JOk rows /\ NoDup rows /\
+      forall x, In x rows <-> exists t u, matching r r2 lk rk t u /\ x = match lo with [] => pick ro u | _ => pick lo t end.
+  Proof.
+    intros HR HL. unfold joinCommonOnly.
+    set (keys := filter (fun k => gm_has k (groupBy r2 rk)) (map fst (groupBy r lk))).
+    assert (Hkeys : forall k, In k keys <-> exists t u, matching r r2 lk rk t u /\ k = pick lk t) by apply common_keys.
+    assert (G : forall key value, (forall i, In i value -> In i key) ->
+              forall sel : row -> row -> row,
+              (forall t u, matching r r2 lk rk t u -> pick key (sel t u) = pick lk t) ->
+              exists rows, (if proj_eqb key value then JOk (rs_of_list keys)
+                            else match mapM_opt (fun index => find_last_nat index key 0 None) value with
+                                 | None => JPanic P_invalid_output
+                                 | Some output => JOk (rs_of_list (map (fun k => pv_values output k) keys))
+                                 end) = JOk rows /\ NoDup rows /\
+                forall x, In x rows <-> exists t u, matching r r2 lk rk t u /\ x = pick value (sel t u)).
+    { intros key value Hsub sel Hsel. destruct (proj_eqb key value) eqn:E.
+      - apply proj_eqb_eq in E. subst value. eexists. split; [reflexivity|]. split; [apply rs_of_list_nodup|].
+        intros x. rewrite rs_of_list_in, Hkeys. split; intros (t & u & Hm & ->); exists t, u; (split; [assumption|]).
+        + symmetry. apply Hsel, Hm.
+        + apply Hsel, Hm.
+      - destruct (remap_spec key value Hsub) as (output & -> & Hr & Hmap).
+        eexists. split; [reflexivity|]. split; [apply rs_of_list_nodup|].
+        intros x. rewrite rs_of_list_in, in_map_iff.
+        assert (Hrow : forall t u, matching r r2 lk rk t u -> pv_values output (pick lk t) = pick value (sel t u)).
+        { intros t u Hm. rewrite pv_values_pick by (rewrite <- (Hsel t u Hm), pick_length; exact Hr).
+          rewrite <- (Hsel t u Hm), pick_pick by exact Hr. rewrite Hmap. reflexivity. }
+        split.
+        + intros (k & <- & Hk). apply Hkeys in Hk as (t & u & Hm & ->). exists t, u. split; [assumption | apply Hrow, Hm].
+        + intros (t & u & Hm & ->). exists (pick lk t). split; [apply Hrow, Hm | apply Hkeys; exists t, u; split; [assumption | reflexivity]]. }
+    destruct lo as [|a lo'].
+    - cbn [length Nat.eqb]. apply (G rk ro (HR eq_refl) (fun _ u => u)).
+      intros t u (_ & _ & Hk). symmetry; exact Hk.
+    - cbn [length Nat.eqb]. apply (G lk (a :: lo') (HL ltac:(discriminate)) (fun t _ => t)).
+      intros t u _. reflexivity.
+  Qed.
+End Strategies2.
+
+(* ---------- positionalRelation.Join ---------- *)
+
+(* the shapes of (key, output) projectors on which the strategy chosen by createMode returns every
+   requested output column: one output empty, or both reaching outside their keys.  (On other shapes,
+   e.g. both outputs inside their keys and non-empty, JoinIfCommonExist / joinOneSide drop a requested
+   output: positionalRelation.Join is not a general join.  The eight operators never ask for those.) *)
+Definition join_shape (lk rk lo ro : vproj) : Prop :=
+  lo = [] \/ ro = [] \/ (isSubProjection lo lk = false /\ isSubProjection ro rk = false).
+
+Definition partial_key (lk rk lo ro : vproj) : bool :=
+  (negb (isSubProjection lk lo) && hasCommonIndices lo lk) || (negb (isSubProjection rk ro) && hasCommonIndices ro rk).
+
+Lemma hasCommon_nil_l q : hasCommonIndices [] q = false.
+Proof. destruct (hasCommonIndices [] q) eqn:E; [|reflexivity]. apply hasCommon_spec in E as (i & [] & _). Qed.
+Lemma hasCommon_sub p q : p <> [] -> isSubProjection p q = true -> hasCommonIndices p q = true.
+Proof.
+  intros Hp Hs. apply hasCommon_spec. destruct p as [|i p]; [congruence|].
+  exists i. split; [left; reflexivity | apply (proj1 (isSub_spec _ _) Hs); left; reflexivity].
+Qed.
+
+Theorem positional_join_spec r r2 w1 w2 lk rk lo ro :
+  width_is r w1 -> width_is r2 w2 -> r <> [] -> r2 <> [] -> NoDup r -> NoDup r2 ->
+  inrange lk w1 -> inrange lo w1 -> inrange rk w2 -> inrange ro w2 ->
+  length lk = length rk -> partial_key lk rk lo ro = false -> join_shape lk rk lo ro ->
+  exists rows, positional_join r r2 lk rk lo ro = JOk rows /\ NoDup rows /\
+    forall x, In x rows <-> exists t u, matching r r2 lk rk t u /\ x = pick lo t ++ pick ro u.
+Proof.
+  intros Hw1 Hw2 Hne1 Hne2 Hnd1 Hnd2 Hlk Hlo Hrk Hro Hlen Hpart Hshape.
+  unfold positional_join, createMode. rewrite Hlen, Nat.eqb_refl. cbn [negb].
+  unfold partial_key in Hpart. rewrite Hpart.
+  assert (KE : exists rows, JOk (joinKeepEverything r r2 lk rk lo ro) = JOk rows /\ NoDup rows /\
+                 forall x, In x rows <-> exists t u, matching r r2 lk rk t u /\ x = pick lo t ++ pick ro u).
+  { eexists. split; [reflexivity|]. split; [apply rs_of_list_nodup|].
+    intros x. apply (keepEverything_spec r r2 w1 w2 lk rk lo ro); assumption. }
+  destruct (isSubProjection lo lk) eqn:SL; destruct (isSubProjection ro rk) eqn:SR; cbn [negb].
+  - (* both outputs inside their keys: one of them is empty *)
+    destruct Hshape as [->|[->|[? _]]]; [| |congruence].
+    + rewrite hasCommon_nil_l. destruct ro as [|b ro'].
+      * rewrite hasCommon_nil_l. cbn.
+        destruct (ifCommonExist_spec r r2 w1 w2 lk rk Hw1 Hw2 Hne1 Hne2 Hlk Hrk) as [[-> H]|[-> H]].
+        -- exists [[]]. split; [reflexivity|]. split; [constructor; [intros [] | constructor]|].
+           intros x. split; [intros [<-|[]]; destruct H as (t & u & H); exists t, u; split; [exact H | reflexivity]
+                            | intros (t & u & _ & ->); left; reflexivity].
+        -- exists []. split; [reflexivity|]. split; [constructor|].
+           intros x. split; [intros [] | intros (t & u & Hm & _); apply H; exists t, u; exact Hm].
+      * rewrite (hasCommon_sub (b :: ro') rk ltac:(discriminate) SR). cbn.
+        destruct (commonOnly_spec r r2 w1 w2 lk rk [] (b :: ro') Hw1 Hw2 Hne1 Hne2 Hlk Hrk) as (rows & E & Hn & Hx).
+        { intros _. apply isSub_spec, SR. } { congruence. }
+        exists rows. split; [exact E|]. split; [exact Hn|]. intros x. rewrite Hx. reflexivity.
+    + rewrite hasCommon_nil_l. destruct lo as [|a lo'].
+      * rewrite hasCommon_nil_l. cbn.
+        destruct (ifCommonExist_spec r r2 w1 w2 lk rk Hw1 Hw2 Hne1 Hne2 Hlk Hrk) as [[-> H]|[-> H]].
+        -- exists [[]]. split; [reflexivity|]. split; [constructor; [intros [] | constructor]|].
+           intros x. split; [intros [<-|[]]; destruct H as (t & u & H); exists t, u; split; [exact H | reflexivity]
+                            | intros (t & u & _ & ->); left; reflexivity].
+        -- exists []. split; [reflexivity|]. split; [constructor|].
+           intros x. split; [intros [] | intros (t & u & Hm & _); apply H; exists t, u; exact Hm].
+      * rewrite (hasCommon_sub (a :: lo') lk ltac:(discriminate) SL). cbn.
+        destruct (commonOnly_spec r r2 w1 w2 lk rk (a :: lo') [] Hw1 Hw2 Hne1 Hne2 Hlk Hrk) as (rows & E & Hn & Hx).
+        { congruence. } { intros _. apply isSub_spec, SL. }
+        exists rows. split; [exact E|]. split; [exact Hn|]. intros x. rewrite Hx.
+        split; intros (t & u & Hm & ->); exists t, u; (split; [exact Hm|]); unfold pick; simpl; rewrite app_nil_r; reflexivity.
+  - (* only the right output reaches outside its key: the left output is empty *)
+    assert (lo = []) as -> by (destruct Hshape as [H|[H|[H _]]]; [exact H | subst ro; discriminate | congruence]).
+    destruct (joinOneSide_spec r2 r w2 w1 rk lk ro Hw2 Hne2 Hnd2 Hw1 Hne1 Hrk Hro Hlk) as (rows & E & Hn & Hx).
+    destruct (negb (Bool.eqb (hasCommonIndices [] lk) (hasCommonIndices ro rk))); cbn; (exists rows; split; [exact E|]; split; [exact Hn|]; intros x; rewrite Hx;
+      split; [intros (u & t & Hu & Ht & Hk & ->); exists t, u; split; [split; [assumption | split; [assumption | congruence]] | reflexivity]
+             | intros (t & u & (Ht & Hu & Hk) & ->); exists u, t; repeat split; try assumption; congruence]).
+  - (* only the left output reaches outside its key: the right output is empty *)
+    assert (ro = []) as -> by (destruct Hshape as [H|[H|[_ H]]]; [subst lo; discriminate | exact H | congruence]).
+    destruct (joinOneSide_spec r r2 w1 w2 lk rk lo Hw1 Hne1 Hnd1 Hw2 Hne2 Hlk Hlo Hrk) as (rows & E & Hn & Hx).
+    destruct (negb (Bool.eqb (hasCommonIndices lo lk) (hasCommonIndices [] rk))); cbn; (exists rows; split; [exact E|]; split; [exact Hn|]; intros x; rewrite Hx;
+      split; [intros (t & u & Ht & Hu & Hk & ->); exists t, u; split; [split; [assumption | split; assumption] | symmetry; apply app_nil_r]
+             | intros (t & u & (Ht & Hu & Hk) & ->); exists t, u; repeat split; try assumption; apply app_nil_r]).
+  - destruct (negb (Bool.eqb (hasCommonIndices lo lk) (hasCommonIndices ro rk))); cbn; exact KE.
+Qed.
